@@ -124,6 +124,14 @@ CLAIMED["C07"] = dict(cat="proof", tech="Coq proof (has_conflict characterisatio
         "real-time-consistent serial order for the implementation's committed reads.",
    note=PROOF_NOTE + "; commits and snapshot acquisition are serialised by the oracle mutex (assumed; single-threaded interleavings of whole API calls)", ref="6 C07")
 
+CLAIMED["C11"] = dict(cat="proof", tech="Coq proof (recovered counter above every tree entry and journal record; later write wins the point read) + differential reopen/overwrite programs + direct counter clause",
+   text="Coq theorems (props/C11.v, closed): C11_seqno_above_all — for ANY disk image given to the model's recover (any journal batches, tables, registry), the "
+        "next seqno exceeds every entry of every recovered keyspace's current version and every journal record (clears included), and visible = next seqno; "
+        "C11_later_write_wins_partial — a write with such a seqno wins the point read of its key. Tied to the code by histories ending in reopen + overwrite/remove + "
+        "point reads, scans and a fresh snapshot (implementation vs extracted recover), and by comparing seqno()/visible_seqno() right after reopen with the highest "
+        "seqno of every tree (hook) and of every journal file (framing parser). The scan clause is decided differentially.",
+   note=PROOF_NOTE, ref="6 C11")
+
 m = {"version": 1, "setup_cmd": "./setup.sh",
      "hooks": {"guard": "cargo feature fjall_verif",
                "enable": "harness/Cargo.toml depends on fjall = { path = \"/repo\", features = [\"fjall_verif\"] }",
